@@ -8,7 +8,9 @@
     [fx] says which repairs the modelled tree contains:
       [repaired]  the tree as it is now (fix: commits a779db8: lower-case %2f recognised,
                   72ba5d4: path_params decoded under `off`, 6d0a3af: captured values decoded
-                  piece by piece without a place-holder, 41fd1db: C15-F1),
+                  piece by piece without a place-holder, d3f6cd7: unparsable X-Forwarded-Uri used
+                  as received, 41fd1db / 5270ed2: C15-F1 / C15-F6),
+      [before_F6] the tree before d3f6cd7 (kept to document finding C08-F6),
       [before_F5] the tree before 6d0a3af (kept to document finding C08-F5),
       [fixed_F2]  the tree before 72ba5d4 (kept to document finding C08-F3),
       [pinned]    the tree before a779db8 (kept to document finding C08-F2).
@@ -21,7 +23,6 @@
       C08-F1 [guard_F1 rules p p']  some path expression of the rule set matches one of the two
                                     spellings (literals byte for byte) and not the other
       C08-F4 [guard_F4 p]           a byte net/url does not accept in an encoded path
-      C08-F6 [guard_F6 p]           (X-Forwarded-Uri only) a malformed escape
 
     Entry points: [serve] = heimdall's own HTTP server (origin-form target), [serve_envoy] = Envoy
     ext_authz, [serve_xfu] = HTTP server with the target handed over in X-Forwarded-Uri (the
@@ -90,7 +91,7 @@ Print Assumptions C08_reencoding_invariant_nonvacuous.
 (** through heimdall's own HTTP server a path with a malformed escape is refused with 400
     before heimdall sees it (so [reenc], which relates well-formed paths only, leaves nothing
     out there; through Envoy a malformed path reaches the rules as it is, through
-    X-Forwarded-Uri see C08-F6) *)
+    X-Forwarded-Uri as well since d3f6cd7) *)
 Theorem C08_malformed_rejected : forall fx rules dflt host q p,
   unescape p = None -> serve fx rules dflt host p q = BadRequest.
 Proof. exact malformed_rejected. Qed.
@@ -325,12 +326,20 @@ Theorem C08_off_rejects_encoded_slash_xfu : forall rules dflt host own q p rid d
 Proof. exact off_rejects_encoded_slash_xfu. Qed.
 Print Assumptions C08_off_rejects_encoded_slash_xfu.
 
-(** C08-F6 (open): a forwarded target with a malformed escape is silently replaced by the target
-    of the proxy's own request, so a path with an encoded slash is accepted by the default rule;
-    with the candidate repair fixes/C08-F6.diff it is answered with the precondition error *)
-Theorem C08_F6_refuted :
+(** also for a forwarded target that does not parse (it is looked up as received since d3f6cd7) *)
+Theorem C08_off_rejects_encoded_slash_xfu_any : forall rules dflt host own q p rid d cs up,
+  enc_slash p = true -> (guard_F6 p = false -> guard_F4 p = false) -> has_prefix "/" p = true ->
+  serve_xfu repaired rules dflt host own p q = Accepted rid d cs up ->
+  d = false /\ exists r, In r rules /\ r_id r = rid /\ r_setting r <> Off.
+Proof. exact off_rejects_encoded_slash_xfu_any. Qed.
+Print Assumptions C08_off_rejects_encoded_slash_xfu_any.
+
+(** C08-F6 on the tree before d3f6cd7: a forwarded target with a malformed escape was silently
+    replaced by the target of the proxy's own request, so a path with an encoded slash was accepted
+    by the default rule; now it is answered with the precondition error *)
+Theorem C08_F6_pinned_refuted :
   enc_slash "/a%2Fb%zz" = true /\ guard_F6 "/a%2Fb%zz" = true /\ guard_F4 "/a%2Fb%zz" = false /\
-  serve_xfu repaired [] true "h" "/zz-own" "/a%2Fb%zz" "" = Accepted "default" true [] None /\
-  serve_xfu repaired_F6 [] true "h" "/zz-own" "/a%2Fb%zz" "" = Precondition.
-Proof. exact F6_refuted. Qed.
-Print Assumptions C08_F6_refuted.
+  serve_xfu before_F6 [] true "h" "/zz-own" "/a%2Fb%zz" "" = Accepted "default" true [] None /\
+  serve_xfu repaired [] true "h" "/zz-own" "/a%2Fb%zz" "" = Precondition.
+Proof. exact F6_pinned_refuted. Qed.
+Print Assumptions C08_F6_pinned_refuted.
